@@ -950,6 +950,90 @@ def run_c09(ctx):
     return res
 
 
+def run_c12(ctx):
+    import gen_lib
+    res = Result()
+    res.rule = ("(a) library histories with store/load (KB-level model, behaviour of loaded instances vs model vs from-scratch semantics, store->load->store->load); "
+                "(b) byte level: every stream the real StoreKnowledgeBaseToWriter produced is decoded by the Lean decoder, must re-encode to the identical bytes, "
+                "and real loader and model loader must agree on accept/reject at cut offsets (quick: 0..24, the last 24, 120 random; thorough: every offset); "
+                "(c) a writer failing at its k-th Write call makes the store fail (k = 0..writes-1, sampled in quick); non-trivial = distinct (stream, cut) pairs")
+    # (a)
+    sub = run_lib(ctx, "C12")
+    for k in ("evaluations", "corr_compared", "unmodelled"):
+        setattr(res, k, getattr(sub, k))
+    res.corr_details += sub.corr_details
+    res.corr_broken = sub.corr_broken
+    res.violations += sub.violations
+    res.distribution.update(sub.distribution)
+    # (b) collect real streams
+    rng = Rng(ctx.seed * 49979687 + 12)
+    base = []
+    for i in range(ctx.n(6, 40)):
+        r = rng.fork()
+        sc = gen.engine_scenario(r, "c12s-%d-%d" % (ctx.seed, i), r.choice(["stable", "wild"]), nexec=0, wm=False)
+        sc["ops"] = [o for o in sc["ops"] if o.get("op") == "build"]
+        if r.chance(0.4):
+            sc["ops"].append({"op": "remove", "lib": "L", "kb": "K", "rule": sc["ops"][0]["rules"][0]["name"], "viaKb": r.chance(0.5)})
+        sc["ops"].append({"op": "store", "lib": "L", "kb": "K", "as": "s", "hex": True, "failAt": r.below(40)})
+        base.append(sc)
+    go = pl.run_go(base, jobs=ctx.jobs)
+    wire = []
+    for sc, g in zip(base, go):
+        st = g.get("res", [{}])[-1]
+        h = st.get("hex")
+        if not h:
+            res.corr_details.append({"id": sc["id"], "status": "crash", "detail": "store gave no bytes: %s" % json.dumps(st)[:300], "scenario": sc})
+            res.corr_broken = True
+            continue
+        if st.get("failStoreErr") is False and st.get("writes", 0) > sc["ops"][-1]["failAt"]:
+            res.violations.append({"signature": "monitor:store-succeeds-with-failing-writer", "detail": "failAt %d of %d writes" % (sc["ops"][-1]["failAt"], st.get("writes")), "scenario": sc})
+        n = len(h) // 2
+        if ctx.tier == "thorough":
+            cuts = list(range(0, n + 1))
+        else:
+            cuts = sorted(set(list(range(0, min(25, n))) + list(range(max(0, n - 24), n + 1)) + [rng.below(n) for _ in range(120)]))
+        ops = [{"op": "wire", "hex": h}] + [{"op": "loadhex", "hex": h, "cut": k, "probe": True} for k in cuts]
+        # keep scenarios small: split the cut list
+        for j in range(0, len(ops), 400):
+            wire.append({"id": "%s-w%d" % (sc["id"], j), "ops": ops[j:j + 400], "n": n})
+    gw = pl.run_go(wire, jobs=ctx.jobs)
+    lw = pl.run_lean(wire, jobs=ctx.jobs)
+    for sc, g, l in zip(wire, gw, lw):
+        if "res" not in g or "res" not in l:
+            res.corr_details.append({"id": sc["id"], "status": "crash", "detail": json.dumps([g, l])[:400], "scenario": {"id": sc["id"]}})
+            res.corr_broken = True
+            continue
+        for op, gr, lr in zip(sc["ops"], g["res"], l["res"]):
+            res.evaluations += 1
+            if op["op"] == "wire":
+                res.count("streams-decoded")
+                if not (lr.get("decoded") and lr.get("reencodeEqual") and lr.get("rest") == 0):
+                    res.corr_details.append({"id": sc["id"], "status": "mismatch", "detail": "model decoder vs real stream: %s" % json.dumps(lr)[:300],
+                                             "scenario": {"id": sc["id"], "hex": op["hex"][:2000]}})
+                    res.corr_broken = True
+                continue
+            res.corr_compared += 1
+            k = op["cut"]
+            key = "%s@%d" % (sc["id"].split("-w")[0], k)
+            if key not in res._distinct:
+                res._distinct.add(key)
+                res.distinct_nontrivial += 1
+            if gr.get("ok") != lr.get("ok"):
+                res.corr_details.append({"id": sc["id"], "status": "mismatch", "detail": "cut %d of %d: real loader ok=%s, model ok=%s" % (k, sc["n"], gr.get("ok"), lr.get("ok")),
+                                         "scenario": {"id": sc["id"], "cut": k, "hex": op["hex"]}})
+                res.corr_broken = True
+            if k < sc["n"] and gr.get("ok"):
+                res.violations.append({"signature": "monitor:truncated-stream-loads", "detail": "stream of %d bytes cut at %d loads without error (rules %s, instance ok %s)" % (
+                    sc["n"], k, gr.get("nrules"), gr.get("instOk")), "scenario": {"id": sc["id"], "cut": k, "hex": op["hex"]}})
+            if k == sc["n"] and not gr.get("ok"):
+                res.violations.append({"signature": "monitor:complete-stream-rejected", "detail": "the complete stream (%d bytes) is rejected" % sc["n"], "scenario": {"id": sc["id"], "hex": op["hex"]}})
+            res.count("cut-rejected" if not gr.get("ok") else "complete-accepted")
+    if len(res.samples) < 2:
+        res.samples.append({"streams": len(base), "cuts": res.distinct_nontrivial})
+    res.samples += sub.samples[:2]
+    return res
+
+
 PROPS = {}
 
 
@@ -967,6 +1051,7 @@ prop("C15", run=run_c15)
 prop("C19", run=run_c19)
 prop("C07", run=run_c07)
 prop("C16", run=lambda ctx: run_lib(ctx, "C16"))
+prop("C12", run=run_c12)
 prop("C09", run=run_c09)
 prop("C10", run=lambda ctx: run_engine_generic(ctx, mix=(("stable", 5), ("wild", 4), ("cancel", 1))))
 prop("C11", run=lambda ctx: run_engine_generic(ctx))
